@@ -175,6 +175,9 @@ def extract_blocks(
             # If form has no sub elements, return the form itself.
             if num_sub_elements == 0:
                 return form
+            # One column per sub element of the trial space (which may be
+            # another mixed space than the test space)
+            num_columns = arguments[-1].ufl_element().num_sub_elements if arity == 2 else 0
             forms = []
             for pi in range(num_sub_elements):
                 if arity == 1:
@@ -183,7 +186,7 @@ def extract_blocks(
                     forms.append(None if f.empty() else f)
                     continue
                 form_i: list[object | None] = []
-                for pj in range(num_sub_elements):
+                for pj in range(num_columns):
                     f = fs.split(form, pi, pj)
                     if f.empty():
                         form_i.append(None)
